@@ -52,6 +52,27 @@ def main():
     ps = paths_of("def f():\n if await a():\n  pass\n for i in b():\n  pass\n")
     seen = {ast.unparse(n) for ev, _ in ps for n in evaluated(ev)}
     expect("evaluated nodes", "await a()" in seen and "b()" in seen)
+    # helper inlining (sa/inline.py): new private helpers are spliced back into their callers
+    from .inline import inline_new_helpers
+    from .normalise import normalise
+
+    def inl(code):
+        t = ast.parse(code)
+        done = inline_new_helpers({"x.py": t})
+        normalise(t)
+        return done, ast.unparse(t)
+    done, out = inl("class A:\n def f(self, c):\n  v = self._pick(c, 1)\n  return v\n def _pick(self, c, d):\n  if c:\n   return d\n  return None\n")
+    expect("inline: guard-clause helper in assignment context", done == ["A._pick"] and "_pick" not in out and "v = 1" in out and "v = None" in out)
+    done, out = inl("class A:\n async def f(self, s):\n  await self._send(s, 'x')\n async def _send(self, s, t):\n  await s.write(t)\n  s.close()\n")
+    expect("inline: awaited statement helper", done == ["A._send"] and "await s.write('x')" in out and "s.close()" in out and "_send" not in out)
+    done, out = inl("class A:\n def f(self):\n  if self._lim():\n   return 1\n def _lim(self):\n  return self.limit is not None and self.limit > 0\n")
+    expect("inline: expression helper in a test", done == ["A._lim"] and "if self.limit is not None and self.limit > 0" in out)
+    done, out = inl("class A:\n def f(self):\n  g = self._h\n  return g()\n def _h(self):\n  return 1\n")
+    expect("inline: helper used as a value is kept", done == [] and "_h" in out)
+    done, out = inl("class A:\n def f(self, n):\n  return self._r(n)\n def _r(self, n):\n  for i in n:\n   if i:\n    return i\n  return 0\n")
+    expect("inline: return inside a loop is not spliced", done == [])
+    done, out = inl("def f(it):\n xs = [g(x) for x in it if x]\n return xs\n")
+    expect("normalise: comprehension statement becomes a loop", "for x in it:" in out and "xs.append(g(x))" in out)
     print("sa.selftest:", "ok" if ok else "FAILED")
     return 0 if ok else 1
 
